@@ -83,6 +83,18 @@ pub fn run(ctx: &Ctx) -> Report {
     rep
 }
 
+/// the large-container stream alone, for C04 ("every id stored inside a container is canonical, equal container
+/// contents share one container id" when control returns): > 1000 containers per kind, so the incremental rebuild runs
+pub fn large_container_stream(rep: &mut Report, rng: &mut Rng, n: usize) {
+    const FILL: usize = 1100;
+    let mut base = EGraph::default();
+    let filler = format!("(constructor Fi (i64) E)\n(relation dd (i64))\n{}\n(rule ((dd x)) ((HV (vec-of (Fi x))) (HS (set-of (Fi x))) (HM (multiset-of (Fi x) (Fi x)))))\n(run 1)\n", (0..FILL).map(|i| format!("(dd {i})")).collect::<Vec<_>>().join(" "));
+    if engine::run(&mut base, &(HDR.to_string() + &filler)).is_ok() && base.get_size("HV") == FILL {
+        let (mut a, mut b) = (vec![], vec![]);
+        cases(rep, rng, n, Some((&base, FILL, filler.clone())), &mut a, &mut b);
+    } else { rep.violate("correspondence", "setup", "large-container setup failed".into(), json!({})); }
+}
+
 fn cases(rep: &mut Report, rng: &mut Rng, n: usize, big: Option<(&EGraph, usize, String)>, lean_lines: &mut Vec<String>, lean_expect: &mut Vec<String>) {
     let fill = big.as_ref().map(|b| b.1).unwrap_or(0);
     for ci in 0..n {
@@ -107,7 +119,7 @@ fn cases(rep: &mut Report, rng: &mut Rng, n: usize, big: Option<(&EGraph, usize,
             prog.push_str(&t); prog.push('\n');
             let os: Vec<engine::Outcome> = [&mut semi, &mut naive, &mut par].into_iter().map(|e| engine::run(e, &t)).collect();
             let pj = || json!({"program": prog.clone()});
-            if let Some(bad) = os.iter().find(|o| !o.is_ok()) { rep.violate("property", "c14-step-failed", format!("step {si} `{t}` failed: {bad:?}"), pj()); break; }
+            if let Some(bad) = os.iter().find(|o| !o.is_ok()) { rep.violate("property", &format!("{}-step-failed", rep.property.to_lowercase()), format!("step {si} `{t}` failed: {bad:?}"), pj()); break; }
             match st {
                 Step::Add(c) => holders.push(c.clone()),
                 Step::Union(a, b) => { let (x, y) = (f[*a], f[*b]); if x != y { let before: BTreeSet<Cont> = holders.iter().map(|h| h.norm(&f)).collect(); let (mn, mx) = (x.min(y), x.max(y)); for v in f.iter_mut() { if *v == mx { *v = mn; } } let after: BTreeSet<Cont> = holders.iter().map(|h| h.norm(&f)).collect(); if after.len() < before.len() { nontrivial = true; } } marked = marked.iter().map(|m| m.norm(&f)).collect(); }
@@ -140,8 +152,8 @@ fn cases(rep: &mut Report, rng: &mut Rng, n: usize, big: Option<(&EGraph, usize,
                 if bad.is_some() { break; }
             }
             if let Some((ename, what)) = bad {
-                let sig = match ename { "naive" => "c14-naive-wrong", "4 threads" => "c14-parallel-container-rebuild", _ => "c14-container-not-canonical" };
-                rep.violate("property", sig, format!("[{ename}] after step {si} `{t}`: {what}"), pj());
+                let sig = format!("{}-{}", rep.property.to_lowercase(), match ename { "naive" => "naive-wrong", "4 threads" => "parallel-container-rebuild", _ => "container-not-canonical" });
+                rep.violate("property", &sig, format!("[{ename}] after step {si} `{t}`: {what}"), pj());
                 break;
             }
         }
